@@ -55,13 +55,15 @@ def make_cov(spec):
   """spec["life"]: how the kernel object came to carry spec["hp"] - "fresh" (constructed with them), "reassigned" (constructed with other
   values, then `.hyperparameters = hp`), "inplace" (constructed from an array that is then overwritten in place and assigned again - what an
   in-place optimiser or the likelihood's setter does), "readmod" (the caller scribbles on what the getter returned), and the WRITTEN_LIVES:
+  "rejected" (constructed with them; then inadmissible vectors are offered to the live object and refused - HyperparameterInvalidError caught, what an optimiser
+  stepping outside the admissible region causes; for the tensor kernel the inadmissible entry is the process variance, see C03_hyper_live_multitask_*),
   "buffer_written" (constructed from a float64 ndarray that its owner overwrites right afterwards), "assigned_written" (the same through
   the setter), "buffer_late" (constructed from such an array, which is overwritten only after a GP has been built on the kernel: make_gp /
   write_caller_buffer).  Whatever the history, the object must be the kernel with hyperparameters hp."""
   import libsigopt.compute.covariance as cv
   hp = numpy.array(spec["hp"], dtype=float)
   life = spec.get("life", "fresh")
-  first = hp if life in ("fresh", "readmod", "buffer_written", "buffer_late") else other_hp(hp)
+  first = hp if life in ("fresh", "readmod", "rejected", "buffer_written", "buffer_late") else other_hp(hp)
   arr = numpy.array(first, dtype=float)
   if spec["cls"] == "multitask":
     from libsigopt.compute.multitask_covariance import MultitaskTensorCovariance
@@ -79,6 +81,16 @@ def make_cov(spec):
       got *= 3.0
     except (TypeError, ValueError):
       pass
+  elif life == "rejected":
+    from libsigopt.compute.covariance_base import HyperparameterInvalidError
+    offers = [other_hp(hp) * numpy.array([-1.0] + [1.0] * (len(hp) - 1))]
+    if spec["cls"] != "multitask":
+      offers += [numpy.concatenate([other_hp(hp)[:-1], [0.0]]), numpy.concatenate([[float("nan")], other_hp(hp)[1:]])]
+    for bad in offers:
+      try:
+        k.hyperparameters = bad
+      except HyperparameterInvalidError:
+        pass
   elif life == "buffer_written":
     arr[:] = other_hp(hp)
   elif life == "assigned_written":
@@ -152,7 +164,7 @@ def gen_gp_input(rng, differentiable=False, well_conditioned=False, allow_multit
   else:
     ls = [rng.uniform(0.15, 0.5) if well_conditioned else 10 ** rng.uniform(-1, 0.5) for _ in range(dim)]
     cov = dict(cls=rng.choice(pool), hp=[10 ** rng.uniform(-0.5, 0.5)] + ls)
-  cov["life"] = rng.choice(["fresh", "fresh", "reassigned", "inplace", "readmod"] + (list(WRITTEN_LIVES) if caller_writes else []))
+  cov["life"] = rng.choice(["fresh", "fresh", "reassigned", "inplace", "readmod", "rejected"] + (list(WRITTEN_LIVES) if caller_writes else []))
   pts = [[rng.uniform(0, 1) for _ in range(dim)] for _ in range(n)]
   if not well_conditioned:
     r = rng.random()
